@@ -49,6 +49,8 @@ func runC18(c *core.Ctx) {
 		i     *int
 		ss    *[]string
 		v     *c18SV
+		// declared through app.Version: no variable of ours behind it
+		isVersion bool
 	}
 	var opts []od
 	var steps []string
@@ -65,6 +67,8 @@ func runC18(c *core.Ctx) {
 	aborted := false
 	declared := 0
 	var violation string
+	app := cli.App("app", "")
+	app.ErrorHandling = flag.ContinueOnError
 	declareAll := func(cmd *cli.Cmd) {
 		for d := 0; d < k && !aborted; d++ {
 			if r.Intn(3) > 0 {
@@ -92,6 +96,9 @@ func runC18(c *core.Ctx) {
 				}
 				o := od{names: names}
 				form := r.Intn(8)
+				if !inSub && r.Intn(10) == 0 {
+					form = 8 // the application's version flag is an option declaration like any other
+				}
 				joined := strings.Join(names, " ")
 				if r.Intn(4) == 0 {
 					joined = " " + strings.Join(names, "  ") + " "
@@ -132,6 +139,10 @@ func runC18(c *core.Ctx) {
 					case 6:
 						o.v = new(c18SV)
 						cmd.VarOpt(joined, o.v, "")
+					case 8:
+						app.Version(joined, "1.0")
+						o.b = nil
+						o.isVersion = true
 					default:
 						o.v = new(c18SV)
 						cmd.Var(cli.VarOpt{Name: joined, Value: o.v})
@@ -216,8 +227,6 @@ func runC18(c *core.Ctx) {
 			}
 		}
 	}
-	app := cli.App("app", "")
-	app.ErrorHandling = flag.ContinueOnError
 	var pick od
 	var pickName string
 	oi := -1
@@ -228,6 +237,12 @@ func runC18(c *core.Ctx) {
 		cmd.Spec = "[OPTIONS]"
 		cmd.Action = func() {}
 		oi = r.Intn(len(opts))
+		for _, o := range opts {
+			if o.isVersion {
+				oi = -1
+				return
+			}
+		}
 		pick = opts[oi]
 		pickName = pick.names[r.Intn(len(pick.names))]
 	}
